@@ -209,14 +209,63 @@ Qed.
 (* ---------- the tar-stream source with AddRoot (Model/TarStream.v) ---------- *)
 From DS Require Import Model.TarStream.
 
-Theorem stream_addroot_proof : forall cs,
-  Forall (fun nc : bytes * node => real_elem (fst nc) /\ names_real (snd nc)) cs ->
-  stream_sees ReaderFixed true (members_of cs) = Some (NDir stream_root_meta [] cs, []).
+(* every file of a walk has a path of rank at least that of the (cleaned) start *)
+Lemma walk_rank t : forall w name e, w <> [] -> names_real t -> In e (walk PathClean w name t) ->
+  prank (clean w) <= prank (fst (fst e)).
 Proof.
-  intros cs Hcs. unfold stream_sees, reader_events.
+  induction t as [m xs cs IH| | | |] using node_ind'; intros w name e Hw Hn Hin;
+    try (cbn [walk file_path app] in Hin; destruct Hin as [<-|[]]; cbn [fst]; apply Nat.le_refl).
+  cbn [walk file_path] in Hin. destruct Hin as [<-|Hin]; [cbn [fst]; apply Nat.le_refl|].
+  inversion Hn as [? ? ? Hcs| | | |]; subst.
+  apply in_flat_map in Hin. destruct Hin as (nc & Hnc & Hx).
+  rewrite Forall_forall in IH, Hcs. destruct (Hcs nc Hnc) as [Hr Hnr].
+  pose proof (IH nc Hnc (join [w; fst nc]) (fst nc) e (join_child_nonempty _ _ Hw Hr) Hnr Hx) as H1.
+  assert (H1' : prank (join [w; fst nc]) <= prank (fst (fst e)))
+    by exact (eq_ind _ (fun z => prank z <= prank (fst (fst e))) H1 _ (join_child_clean w (fst nc) Hw)).
+  pose proof (rank_join_child w (fst nc) Hw Hr) as H2.
+  eapply Nat.le_trans; [apply Nat.lt_le_incl; exact H2|exact H1'].
+Qed.
+
+Lemma filter_all_id {B} (f : B -> bool) l : (forall x, In x l -> f x = true) -> filter f l = l.
+Proof.
+  induction l as [|a l IH]; intros H; [reflexivity|]. cbn [filter]. rewrite (H a (or_introl eq_refl)).
+  rewrite IH; [reflexivity|]. intros x Hx. apply H. right. exact Hx.
+Qed.
+
+(* a stream that lists the content of a directory has no root member *)
+Lemma members_no_root cs : Forall (fun nc : bytes * node => real_elem (fst nc) /\ names_real (snd nc)) cs ->
+  filter (fun e => negb (is_root_member e)) (members_of cs) = members_of cs.
+Proof.
+  intros Hcs. apply filter_all_id. intros e Hin.
+  unfold members_of in Hin. apply in_flat_map in Hin. destruct Hin as (nc & Hnc & Hx).
+  rewrite Forall_forall in Hcs. destruct (Hcs nc Hnc) as [Hr Hnr].
+  assert (Hd : ([dot] : bytes) <> []) by discriminate.
+  pose proof (walk_rank (snd nc) (join [[dot]; fst nc]) (fst nc) e (join_child_nonempty _ _ Hd Hr) Hnr Hx) as H1.
+  assert (H1' : prank (join [[dot]; fst nc]) <= prank (fst (fst e)))
+    by exact (eq_ind _ (fun z => prank z <= prank (fst (fst e))) H1 _ (join_child_clean [dot] (fst nc) Hd)).
+  pose proof (rank_join_child [dot] (fst nc) Hd Hr) as H2.
+  unfold is_root_member. destruct (beq (fst (fst e)) [dot]) eqn:Eb; [|reflexivity].
+  apply beq_eq in Eb. rewrite Eb in H1'. exfalso.
+  assert (Hz : prank [dot] = 0) by reflexivity. rewrite Hz in H1'.
+  exact (Nat.nlt_0_r _ (Nat.lt_le_trans _ _ _ H2 H1')).
+Qed.
+
+(* AddRoot: every root member of the stream is dropped, wherever it stands and however many there
+   are; what is left -- the content of a directory -- ends up in the synthetic root, nothing lost *)
+Theorem stream_addroot_proof : forall ms cs,
+  Forall (fun nc : bytes * node => real_elem (fst nc) /\ names_real (snd nc)) cs ->
+  filter (fun e => negb (is_root_member e)) ms = members_of cs ->
+  stream_sees ReaderFixed true ms = Some (NDir stream_root_meta [] cs, []).
+Proof.
+  intros ms cs Hcs Hf. unfold stream_sees, reader_events. rewrite Hf.
   pose proof (tar_sees_clean_proof (NDir stream_root_meta [] cs) [dot] (nr_dir _ _ _ Hcs)) as H.
   specialize (H ltac:(discriminate)). exact H.
 Qed.
+
+Theorem stream_addroot_plain_proof : forall cs,
+  Forall (fun nc : bytes * node => real_elem (fst nc) /\ names_real (snd nc)) cs ->
+  stream_sees ReaderFixed true (members_of cs) = Some (NDir stream_root_meta [] cs, []).
+Proof. intros cs Hcs. apply stream_addroot_proof; [exact Hcs|apply members_no_root; exact Hcs]. Qed.
 
 Definition ex_stream_members : list (bytes * node) :=
   ([([97], NFile ex_meta [] [1]); ([100], NDir ex_meta [] [([120], NFile ex_meta [] [])])])%N.
@@ -271,3 +320,13 @@ Lemma stream_leftover_refuted_proof :
   stream_tar LeftoverRefused false (members_of ex_stream_members) = TarError /\
   stream_tar LeftoverRefused true (members_of ex_stream_members) = TarOk (NDir stream_root_meta [] ex_stream_members).
 Proof. repeat split; vm_compute; reflexivity. Qed.
+
+(* two root members in a row: the `if` variant hands the second one out as an entry named "." *)
+Definition root_member (name : bytes) : event := ([dot], name, NDir ex_meta [] []).
+Lemma stream_skips_one_refuted_proof :
+  let ms := root_member [dot] :: root_member [dot] :: members_of ex_stream_members in
+  stream_sees ReaderSkipsOne true ms = Some (NDir stream_root_meta [] [([dot], NDir ex_meta [] ex_stream_members)], []) /\
+  stream_sees ReaderFixed true ms = Some (NDir stream_root_meta [] ex_stream_members, []) /\
+  stream_sees ReaderNoSkip true (root_member [dot] :: members_of ex_stream_members) =
+    Some (NDir stream_root_meta [] [([dot], NDir ex_meta [] ex_stream_members)], []).
+Proof. cbv zeta. repeat split; vm_compute; reflexivity. Qed.
